@@ -12,6 +12,8 @@ from .speceval import SpecEval, SpecError, const_value, pure_len, pure_str, pure
 from .exec_expr import ExprMixin
 from .exec_core import LOG_ROOTS, DROPPED_CALLS
 
+_pure_fns = {}
+
 MUTATORS = {
     "set": {"add", "clear", "remove", "discard", "update", "difference_update", "intersection_update", "pop"},
     "list": {"append", "extend", "pop", "clear", "remove", "insert", "sort", "reverse"},
@@ -39,6 +41,8 @@ class CallMixin(ExprMixin):
             return
         if isinstance(f, ast.Name) and f.id not in st.locals:
             name = f.id
+            if name == "cls" and self.info and self.info.get("kind") == "classmethod" and "." in self.contract.key:
+                name = self.contract.key.split(".")[0]
             if name in S.CONTRACTS:
                 yield from self.call_by_key(S.CONTRACTS[name], None, node, st)
                 return
@@ -136,7 +140,57 @@ class CallMixin(ExprMixin):
         yield from self.call_container_method(v, attr, node, st)
 
     # ---- argument binding ----------------------------------------------------------------
+    def call_lock_wrapper(self, c, recv, node, st):
+        """`wrapper(func, *args, **kw)`: acquire the lock, call func(*args, **kw) exactly once while it is
+        held, release on every exit (parametric contract; the wrapper's own body - SoftFileLock - is trusted)."""
+        lw = c.lock_wrapper
+        self.used_assumed[c.key] = self.used_assumed.get(c.key, 0) + 1
+        fi = lw.get("func_index", 0)
+        if len(node.args) <= fi:
+            raise UnsupportedError(f"lock wrapper {c.key}: missing callable argument (line {node.lineno})")
+        target = None
+        for fv, s0 in self.ev(node.args[fi], st):
+            if isinstance(fv, Raise):
+                yield fv, s0
+                continue
+            if isinstance(fv, BoundMethod) and isinstance(fv.recv, Val) and fv.recv.ty.kind == "ref":
+                tc = S.lookup_method(fv.recv.ty.name, fv.name)
+                trecv = fv.recv
+            elif isinstance(fv, GlobalRef) and fv.kind == "classattr":
+                cname, mname = fv.name.split(".", 1)
+                tc = S.lookup_method(cname, mname)
+                trecv = "static"
+            else:
+                raise UnsupportedError(f"lock wrapper {c.key}: argument is not a bound method (line {node.lineno})")
+            if tc is None:
+                raise UnsupportedError(f"lock wrapper {c.key}: no contract for the wrapped function {ast.unparse(node.args[fi])}")
+            rest = [a for i, a in enumerate(node.args) if i > fi]
+            for vals, s in self.ev_many(rest + [k.value for k in node.keywords], s0):
+                if isinstance(vals, Raise):
+                    yield vals, s
+                    continue
+                pos = vals[:len(rest)]
+                kw = {k.arg: v for k, v in zip(node.keywords, vals[len(rest):])}
+                g = lw["ghost"]
+                held = s.ghost_get(g)
+                self.oblige("pre", s, z3.Not(held.t), f"lock of {c.key} is not already held by this process (a nested acquisition of the SoftFileLock times out)",
+                            node.lineno, extra={"callee": c.key, "clause": "not ghost." + g})
+                # lock acquisition may time out: nothing happened
+                if "Timeout" in c.raises or lw.get("timeout", True):
+                    t = s.clone()
+                    t.trace.append(f"L{node.lineno}:lock Timeout")
+                    yield Raise("Timeout", node.lineno, f"lock acquisition in {c.key} timed out"), t
+                s.ghost_set(g, V.mk_bool(True))
+                for r, s2 in self.call_contract(tc, trecv, pos, kw, s, node):
+                    s2.ghost_set(g, V.mk_bool(False))
+                    if isinstance(r, Raise) and lw.get("marker"):
+                        s2.ghost_set(lw["marker"], V.mk_bool(True))
+                    yield r, s2
+
     def call_by_key(self, c, recv, node, st, recv_node=None):
+        if c.lock_wrapper:
+            yield from self.call_lock_wrapper(c, recv, node, st)
+            return
         for vals, s in self.ev_many(list(node.args) + [k.value for k in node.keywords], st):
             if isinstance(vals, Raise):
                 yield vals, s
@@ -162,6 +216,10 @@ class CallMixin(ExprMixin):
         if len(pos) > len(params):
             raise UnsupportedError(f"too many positional arguments for {c.key} (line {node.lineno})")
         def fit(v, ty, pname):
+            if ty.kind == "opaque":
+                if v.ty.kind == "none":
+                    return V.opaque_const("None")
+                return O.coerce(v, ty) if (v.parts or O.is_strlit(v) or v.ty.kind == "empty") else V.opaque_const("unit")
             if v.ty.kind in ("opt", "none") and ty.kind not in ("opt", "none"):
                 self.oblige("safe", st, z3.Not(O.is_none(v)), f"argument `{pname}` of {c.key} is not None (TypeError)", node.lineno)
                 st.assume(z3.Not(O.is_none(v)))
@@ -218,20 +276,51 @@ class CallMixin(ExprMixin):
             self.oblige("pre", st, g, f"precondition of {c.key} at call site: {text}", line, extra={"callee": c.key, "clause": text})
             st.assume(g)
         post = st            # mutate in place: the pre-state is the snapshot
-        # memo for pure contracts
+        # pure contracts are functions of their arguments and of the fields of the records they read
+        pure_result = None
+        if c.pure and not c.modifies and c.returns.kind != "none":
+            uf_args = [env[n] for n in sorted(env) if env[n].parts]
+            harrs = []
+            if c.note != "heap-independent":
+                recs = list(getattr(c, "reads", None) or [])
+                if not recs:
+                    for n in sorted(env):
+                        t = env[n].ty
+                        t = t.args[0] if t.kind == "opt" else t
+                        if t.kind == "ref" and t.name in S.RECORDS:
+                            recs.append(t.name)
+                for rname in recs:
+                    seen, todo = set(), [rname]
+                    while todo:
+                        r = todo.pop()
+                        if r in seen or r not in S.RECORDS:
+                            continue
+                        seen.add(r)
+                        rec = S.RECORDS[r]
+                        for fld in sorted(rec.fields):
+                            harrs += st.heap.key_arrays(*S.lookup_field(r, fld)[:1], fld, rec.fields[fld])
+                        todo.extend(rec.bases)
+            parts = []
+            for a in uf_args:
+                parts += list(a.parts)
+            parts += harrs
+            sorts = [p.sort() for p in parts]
+            outp = []
+            for i, rs in enumerate(c.returns.sorts()):
+                key = ("pure:" + c.key, i, tuple(x.sexpr() for x in sorts))
+                if key not in _pure_fns:
+                    _pure_fns[key] = z3.Function(f"pure_{c.key.replace('.', '_')}_{i}_{len(_pure_fns)}", *(sorts + [rs])) if parts else None
+                outp.append(_pure_fns[key](*parts) if parts else z3.Const(f"purec_{c.key}_{i}", rs))
+            pure_result = Val(c.returns, outp)
         memo_key = None
-        if c.pure and not c.modifies:
-            memo_key = (c.key, tuple(p.sexpr() for n in sorted(env) for p in env[n].parts),
-                        tuple(sorted((k, a.sexpr()) for k, a in st.heap.maps.items())) if not c.note == "heap-independent" else ())
-            if memo_key in st.pure_memo:
-                yield st.pure_memo[memo_key], st
-                return
         post_env = dict(env)
         modified_params = []
         for m in c.modifies:
             self.havoc_target(m, env, post_env, post, c, modified_params)
         if recv == "new":
             result = new_ref
+        elif pure_result is not None:
+            result = pure_result
         else:
             result = V.fresh(c.returns, "ret_" + c.key.replace(".", "_")) if c.returns.kind != "none" else V.NONE
         post_env["result"] = result
@@ -242,7 +331,8 @@ class CallMixin(ExprMixin):
             ok = True
             try:
                 ev = SpecEval(self, se, pre, post_env, facts, c.defs, env)
-                conds = [ev.clause(t) for t in spec.get("when", [])]
+                # `when` speaks about the state before the call
+                conds = [SpecEval(self, pre, pre, env, facts, c.defs, env).clause(t) for t in spec.get("when", [])]
                 ens = [ev.clause(t) for t in spec.get("ensures", [])]
             except SpecError as exc2:
                 raise UnsupportedError(f"exceptional postcondition of {c.key}: {exc2}")
@@ -437,6 +527,10 @@ class CallMixin(ExprMixin):
             f2 = []
             r = z3.And([z3.Not(SpecEval(self, st, st, e, f2).boolean(t)) for t in conds])
             return r
+        probe = z3.simplify(cond(z3.Int(V.fresh_name("pi"))))
+        if z3.is_true(probe):
+            yield src, st          # the filter keeps everything (e.g. state=None)
+            return
         yield self.filtered_list(src, cond, st), st
 
     # ---- container methods -----------------------------------------------------------------
@@ -450,7 +544,10 @@ class CallMixin(ExprMixin):
             if node.keywords:
                 raise UnsupportedError(f"keyword arguments to .{attr}() at line {node.lineno}")
             # re-read receiver: argument evaluation cannot change it (args are pure here) but states forked
-            if kind in ("opaque", "name", "strlit") and attr in OPAQUE_STR_METHODS:
+            if kind == "opaque" and ("Opaque." + attr) in S.CONTRACTS:
+                kwv = {}
+                yield from self.call_contract(S.CONTRACTS["Opaque." + attr], v, vals, kwv, s, node, recv_node=recv_node)
+            elif kind in ("opaque", "name", "strlit") and attr in OPAQUE_STR_METHODS:
                 args = [v if not O.is_strlit(v) else O.coerce(v, T.OPAQUE)] + [O.coerce(a, T.OPAQUE) if O.is_strlit(a) else a for a in vals]
                 yield apply_uf("strm_" + attr, T.OPAQUE, [a for a in args if a.parts]), s
             elif kind in MUTATORS and attr in MUTATORS[kind]:
@@ -508,6 +605,8 @@ class CallMixin(ExprMixin):
         elif kind == "set":
             if attr == "add":
                 new = O.set_add(v, args[0], facts)
+                from .speceval import card_in_facts_add
+                facts.extend(card_in_facts_add(self, v, new, O.coerce(args[0], v.ty.elem)))
             elif attr == "clear":
                 new = V.empty_set(v.ty.elem)
             elif attr in ("remove", "discard"):
@@ -851,6 +950,9 @@ class CallMixin(ExprMixin):
             def body_at(idx, expr):
                 return SpecEval(self, s, s, {var: V.list_get(src, idx)}, facts).ev(self.pure_expr(expr, s))
 
+            if not g.ifs and isinstance(node.elt, ast.Call) and self.static_callee(node.elt, s) is not None:
+                yield from self.comp_with_contract(node, g, src, s)
+                continue
             if not g.ifs:
                 sample = body_at(i, node.elt)
                 sample = self._lit(sample)
@@ -866,6 +968,70 @@ class CallMixin(ExprMixin):
                 out = self.filtered_list(src, cond, s)
                 s.assume(*facts)
                 yield out, s
+
+    def static_callee(self, call, st):
+        """Contract of `Class.method(...)` / `func(...)` resolvable without evaluating a receiver."""
+        f = call.func
+        if isinstance(f, ast.Name) and f.id not in st.locals:
+            return S.CONTRACTS.get(f.id) or S.CONTRACTS.get(f.id + ".__init__")
+        if isinstance(f, ast.Attribute) and isinstance(f.value, ast.Name) and f.value.id in S.RECORDS and f.value.id not in st.locals:
+            return S.lookup_method(f.value.id, f.attr)
+        return None
+
+    def comp_with_contract(self, node, g, src, st):
+        """[C.make(args(x)) for x in src] where C.make has a contract that allocates (returns a fresh
+        reference): the whole-field frames of the contract are havoced once, each element satisfies
+        the postcondition, all other objects are unchanged."""
+        c = self.static_callee(node.elt, st)
+        if c.returns.kind != "ref" or not c.fresh_result or c.requires:
+            raise UnsupportedError(f"comprehension over a call to {c.key} (needs a precondition-free allocating contract)")
+        self.used_assumed[c.key] = self.used_assumed.get(c.key, 0) + (1 if c.kind == "assumed" else 0)
+        call = node.elt
+        var = g.target.id
+        n = V.list_len(src)
+        out = V.fresh(T.ListT(c.returns), "Lnew")
+        i, j = z3.Int(V.fresh_name("ci")), z3.Int(V.fresh_name("cj"))
+        pre = st.snapshot()
+        fields = []
+        for m in c.modifies:
+            parts = m.split(".")
+            if not (len(parts) == 2 and parts[0] in S.RECORDS):
+                raise UnsupportedError(f"comprehension over {c.key}: modifies entry {m} is not Class.field")
+            rec, fty = S.lookup_field(parts[0], parts[1])
+            fields.append((rec, parts[1], fty))
+        old_arrays = {(str(rec), f): st.heap.key_arrays(rec, f, fty) for rec, f, fty in fields}
+        for rec, f, fty in fields:
+            st.heap.havoc_field(rec, f, fty)
+            self.note_heap_write(st, rec, f)
+        facts = []
+        params = [p for p in c.params if p[0] not in ("self", "cls")]
+        env = {}
+        argvals = []
+        elem = V.list_get(src, i)
+        sev = SpecEval(self, pre, pre, {var: elem}, facts)
+        for k, a in enumerate(call.args):
+            env[params[k][0]] = O.coerce(sev.ev(self.pure_expr(a, st)), params[k][1])
+        for kw in call.keywords:
+            pty = [p for p in params if p[0] == kw.arg][0][1]
+            env[kw.arg] = O.coerce(sev.ev(self.pure_expr(kw.value, st)), pty)
+        for name, ty, default in params:
+            if name not in env:
+                env[name] = O.coerce(SpecEval(self, pre, pre, {}, facts).ev(S.parse_clause(default)), ty)
+        env["result"] = V.list_get(out, i)
+        pev = SpecEval(self, st, pre, env, facts, c.defs, env)
+        ens = [pev.clause(t) for t in list(c.ensures) + list(c.ghost_ensures)]
+        st.assume(*facts)
+        st.assume(V.list_len(out) == n, n >= 0)
+        st.assume(z3.ForAll([i], z3.Implies(z3.And(0 <= i, i < n), z3.And(ens))))
+        st.assume(z3.ForAll([i, j], z3.Implies(z3.And(0 <= i, i < j, j < n), V.list_get(out, i).t != V.list_get(out, j).t)))
+        r = z3.Const(V.fresh_name("qr"), T.RefSort)
+        not_new = z3.ForAll([i], z3.Implies(z3.And(0 <= i, i < n), V.list_get(out, i).t != r))
+        for rec, f, fty in fields:
+            new = st.heap.key_arrays(rec, f, fty)
+            for a_new, a_old in zip(new, old_arrays[(str(rec), f)]):
+                st.assume(z3.ForAll([r], z3.Implies(not_new, z3.Select(a_new, r) == z3.Select(a_old, r))))
+        self.last_call_fresh = True
+        yield out, st
 
     def filtered_list(self, src, cond, st):
         """[x for x in src if cond(x)] as a fresh list with an order-preserving index bijection."""
